@@ -181,6 +181,16 @@ def _results_for(kind, payload):
         return "zip", buf.getvalue()
     if kind == "text":              # plain-text inputs given as bytes (line-ending and BOM variants)
         return payload["ext"], bytes.fromhex(payload["hex"])
+    if kind == "tarnames":          # archive members whose names are not UTF-8 (they reach the metadata as surrogate-escaped strings)
+        import tarfile
+        buf = io.BytesIO()
+        with tarfile.open(fileobj=buf, mode="w:gz", format=tarfile.GNU_FORMAT, encoding="latin-1") as tf:
+            for nm, text in payload["members"]:
+                data = text.encode()
+                ti = tarfile.TarInfo(nm)
+                ti.size = len(data)
+                tf.addfile(ti, io.BytesIO(data))
+        return "tar.gz", buf.getvalue()
     raise ValueError(kind)
 
 
@@ -191,10 +201,15 @@ def _extract(ext, data):
 
 def _cli_json(path, *flags):
     from sharepoint2text import cli
-    out, err = io.StringIO(), io.StringIO()
+    raw, err = io.BytesIO(), io.StringIO()
+    out = io.TextIOWrapper(raw, encoding="utf-8", errors="strict", newline="\n")      # what a UTF-8 terminal or pipe gives the CLI
     with contextlib.redirect_stdout(out), contextlib.redirect_stderr(err):
         rc = cli.main([path, *flags])
-    return rc, out.getvalue(), err.getvalue()
+        try:
+            out.flush()
+        except Exception as e:  # noqa
+            err.write(f"[flush: {type(e).__name__}: {e}]")
+    return rc, raw.getvalue().decode("utf-8", "replace"), err.getvalue()
 
 
 def judge_case(case, with_cli=False):
@@ -463,6 +478,11 @@ def results_shard(ctx: Ctx):
         eol = st.lists(st.tuples(st.sampled_from(["alpha line", "beta;line", "", "  indented", "Zeile mit ä", "tab\tsep"]), st.sampled_from(["\n", "\r\n", "\r", "\r\r\n", "\n\r", ""])), min_size=1, max_size=5)
         txt = st.tuples(st.sampled_from(["txt", "md", "csv", "tsv", "json"]), st.sampled_from(["", "\ufeff"]), eol, st.sampled_from(["utf-8", "utf-8", "utf-16", "latin-1"])).map(
             lambda t: {"kind": "text", "ext": t[0], "hex": (t[1] + "".join(a + b for a, b in t[2])).encode(t[3], "replace").hex(), "features": ["line-endings"]})
+        names = st.lists(st.tuples(st.sampled_from(["caf\xe9.txt", "plain.txt", "na\xefve/r\xe9sum\xe9.md", "\xff\xfe.csv", "ok/data.json"]), st.sampled_from(["text ZB08901", "a,b\n1,2\n", "# t\n"])).map(list),
+                         min_size=1, max_size=3, unique_by=lambda t: t[0])
+        tn = names.map(lambda m: {"kind": "tarnames", "members": m, "features": ["non-utf8-names"]})
+        hyp_search(ctx, "res-tarnames", tn, ev, n, part, model_shrink=False)
+        hyp_search(ctx, "cli-tarnames", tn, lambda c: ev(c, True), max(6, n // 2), part, model_shrink=False)
         hyp_search(ctx, "res-text", txt, ev, n * 8, part, model_shrink=False)
         hyp_search(ctx, "cli-text", txt, lambda c: ev(c, True), n, part, model_shrink=False)
     return part
